@@ -62,6 +62,8 @@ class ListedFailure(Exception):
   """Listed in failure_exceptions of the harness tests."""
 
 
+from types import FunctionType as _FunctionType
+
 BAD_VALUES = (42, 0, False, '', [], 0.0, 'done', (), {})
 
 
@@ -85,23 +87,23 @@ class Script:
     self.count[name] = i + 1
     return i
 
+  @staticmethod
+  def _pick(seq, i, default):
+    if not seq:
+      return default
+    v = seq[i] if i < len(seq) else seq[-1]
+    if type(v) is _FunctionType:      # lazy entry: evaluated (and forked on) only when consulted
+      v = v()
+    return v
+
   def behaviour(self, name, i):
-    seq = self.beh.get(name, ())
-    if i < len(seq):
-      return seq[i]
-    return seq[-1] if seq else B_NONE
+    return self._pick(self.beh.get(name, ()), i, B_NONE)
 
   def measurement(self, name, i):
-    seq = self.meas.get(name, ())
-    if i < len(seq):
-      return seq[i]
-    return seq[-1] if seq else (False, 0)
+    return self._pick(self.meas.get(name, ()), i, (False, 0))
 
   def diagnosis(self, name, i):
-    seq = self.diag.get(name, ())
-    if i < len(seq):
-      return seq[i]
-    return seq[-1] if seq else 0
+    return self._pick(self.diag.get(name, ()), i, 0)
 
 
 SCRIPT = Script()
@@ -258,6 +260,12 @@ def install_sync_threads():
 
 def quiet():
   htfstub.quiet_logging()
+
+
+def skip_base_type_caches():
+  """PhaseRecord.as_base_types (incremental base-type cache of the record, C10's subject) returns {}:
+  a third of the per-path time of program-level conditions goes there."""
+  TR.PhaseRecord.as_base_types = lambda self: {}
 
 
 def reset_globals():
